@@ -59,83 +59,93 @@ Proof.
 Qed.
 
 (* ---- the built-in self check ---- *)
-Lemma sc_loop_ok : forall T o f i,
-  sc_loop T i o f = ScOk <-> exists f1 f2, f = f1 ++ f2 /\ Forall2 (tok_equiv T) o f1.
+Lemma first_mismatch_none : forall T o f i,
+  first_mismatch T i o f = None <->
+  Forall2 (tok_equiv T) (firstn (min (length o) (length f)) o) (firstn (min (length o) (length f)) f).
 Proof.
   intros T. induction o as [|a o IH]; intros f i; simpl.
-  - split; auto. intros _. exists [], f. split; auto.
-  - destruct f as [|b f].
-    + split; [discriminate|]. intros (f1 & f2 & E & F). inversion F; subst. discriminate.
+  - split; intros _; [constructor|reflexivity].
+  - destruct f as [|b f]; simpl.
+    + split; intros _; [constructor|reflexivity].
     + destruct (tok_equivb T a b) eqn:E.
       * apply tok_equivb_spec in E. rewrite IH. split.
-        -- intros (f1 & f2 & -> & F). exists (b :: f1), f2. split; auto.
-        -- intros (f1 & f2 & Ef & F). inversion F; subst. injection Ef as <- ->. eauto.
-      * split; [discriminate|]. intros (f1 & f2 & Ef & F). inversion F as [|? ? ? ? Hab Hr]; subst. injection Ef as <- ->.
+        -- intros F. constructor; auto.
+        -- intros F. inversion F; subst. auto.
+      * split; [discriminate|]. intros F. inversion F as [|? ? ? ? Hab Hr]; subst.
         apply tok_equivb_spec in Hab. congruence.
 Qed.
 
-Lemma sc_loop_index : forall T o f i,
-  sc_loop T i o f = ScIndexError <-> exists o1 x o2, o = o1 ++ x :: o2 /\ Forall2 (tok_equiv T) o1 f.
+Lemma first_mismatch_some : forall T o f i k,
+  first_mismatch T i o f = Some k ->
+  exists j a b, k = i + j /\ nth_error o j = Some a /\ nth_error f j = Some b /\ ~ tok_equiv T a b /\
+                Forall2 (tok_equiv T) (firstn j o) (firstn j f).
 Proof.
-  intros T. induction o as [|a o IH]; intros f i; simpl.
-  - split; [discriminate|]. intros (o1 & x & o2 & E & _). destruct o1; discriminate.
-  - destruct f as [|b f].
-    + split; auto. intros _. exists [], a, o. split; auto.
-    + destruct (tok_equivb T a b) eqn:E.
-      * apply tok_equivb_spec in E. rewrite IH. split.
-        -- intros (o1 & x & o2 & -> & F). exists (a :: o1), x, o2. split; auto.
-        -- intros (o1 & x & o2 & Eo & F). inversion F; subst. injection Eo as <- ->. eauto.
-      * split; [discriminate|]. intros (o1 & x & o2 & Eo & F). inversion F as [|? ? ? ? Hab Hr]; subst. injection Eo as <- ->.
-        apply tok_equivb_spec in Hab. congruence.
+  intros T. induction o as [|a o IH]; intros f i k H; simpl in H; [discriminate|].
+  destruct f as [|b f]; [discriminate|]. destruct (tok_equivb T a b) eqn:E.
+  - apply IH in H. destruct H as (j & x & y & -> & Hx & Hy & Hn & F).
+    exists (S j), x, y. simpl. split; [lia|]. split; [auto|]. split; [auto|]. split; [auto|].
+    constructor; auto. apply tok_equivb_spec; auto.
+  - injection H as <-. exists 0, a, b. simpl. split; [lia|]. split; [auto|]. split; [auto|]. split; [|constructor].
+    intros He. apply tok_equivb_spec in He. congruence.
 Qed.
 
-(* no error is returned exactly when the original's collapsed tokens are equivalent to a PREFIX
-   of the formatted text's *)
-Theorem sanity_ok_iff_proof : forall T o f,
-  sanity_tokens T o f = ScOk <->
-  exists f1 f2, collapse f = f1 ++ f2 /\ Forall2 (tok_equiv T) (collapse o) f1.
-Proof. intros T o f. apply sc_loop_ok. Qed.
-
-Theorem sanity_raises_iff_proof : forall T o f,
-  sanity_tokens T o f = ScIndexError <->
-  exists o1 x o2, collapse o = o1 ++ x :: o2 /\ Forall2 (tok_equiv T) o1 (collapse f).
-Proof. intros T o f. apply sc_loop_index. Qed.
+(* the self check reports nothing EXACTLY when the criterion holds *)
+Theorem sanity_ok_iff_proof : forall T o f, sanity_tokens T o f = ScOk <-> fmt_equiv T o f.
+Proof.
+  intros T o f. unfold sanity_tokens, fmt_equiv.
+  destruct (first_mismatch T 0 (collapse o) (collapse f)) as [k|] eqn:E.
+  - split; [discriminate|]. intros F. exfalso.
+    assert (N : first_mismatch T 0 (collapse o) (collapse f) = None).
+    { apply first_mismatch_none. rewrite (Forall2_len _ _ _ _ F), Nat.min_id, firstn_all.
+      rewrite <- (Forall2_len _ _ _ _ F), firstn_all. auto. }
+    congruence.
+  - apply first_mismatch_none in E. destruct (length (collapse o) =? length (collapse f)) eqn:L.
+    + apply Nat.eqb_eq in L. rewrite <- L, Nat.min_id, firstn_all in E. rewrite L, firstn_all in E.
+      split; auto.
+    + apply Nat.eqb_neq in L. split; [discriminate|]. intros F. apply Forall2_len in F. contradiction.
+Qed.
 
 Theorem sanity_complete_proof : forall T o f, fmt_equiv T o f -> sanity_tokens T o f = ScOk.
+Proof. intros T o f. apply sanity_ok_iff_proof. Qed.
+
+Theorem sanity_sound_proof : forall T o f, sanity_tokens T o f = ScOk -> fmt_equiv T o f.
+Proof. intros T o f. apply sanity_ok_iff_proof. Qed.
+
+(* "Symbol i differs": position i is the first at which the collapsed streams are not equivalent *)
+Theorem sanity_bug_proof : forall T o f i,
+  sanity_tokens T o f = ScBug i ->
+  exists a b, nth_error (collapse o) i = Some a /\ nth_error (collapse f) i = Some b /\ ~ tok_equiv T a b /\
+              Forall2 (tok_equiv T) (firstn i (collapse o)) (firstn i (collapse f)).
 Proof.
-  intros T o f H. apply sanity_ok_iff_proof. exists (collapse f), []. rewrite app_nil_r. auto.
+  intros T o f i H. unfold sanity_tokens in H.
+  destruct (first_mismatch T 0 (collapse o) (collapse f)) as [k|] eqn:E.
+  - injection H as <-. apply first_mismatch_some in E. destruct E as (j & a & b & -> & Ha & Hb & Hn & F).
+    exists a, b. auto.
+  - destruct (length (collapse o) =? length (collapse f)); discriminate.
 Qed.
 
-(* sound only with the length guard *)
-Theorem sanity_sound_guarded_proof : forall T o f,
-  sanity_tokens T o f = ScOk -> length (collapse f) <= length (collapse o) -> fmt_equiv T o f.
+(* "Symbol count differs": one stream is equivalent to a strict prefix of the other *)
+Theorem sanity_count_proof : forall T o f a b,
+  sanity_tokens T o f = ScCount a b ->
+  a = length (collapse o) /\ b = length (collapse f) /\ a <> b /\
+  Forall2 (tok_equiv T) (firstn (min a b) (collapse o)) (firstn (min a b) (collapse f)).
 Proof.
-  intros T o f H Hl. apply sanity_ok_iff_proof in H. destruct H as (f1 & f2 & E & F).
-  pose proof (Forall2_len _ _ _ _ F) as Hlen. rewrite E in Hl. rewrite app_length in Hl.
-  destruct f2; [|simpl in Hl; lia]. rewrite app_nil_r in E. unfold fmt_equiv. rewrite E. auto.
+  intros T o f a b H. unfold sanity_tokens in H.
+  destruct (first_mismatch T 0 (collapse o) (collapse f)) as [k|] eqn:E; [discriminate|].
+  destruct (length (collapse o) =? length (collapse f)) eqn:L; [discriminate|].
+  injection H as <- <-. apply Nat.eqb_neq in L. apply first_mismatch_none in E. auto.
 Qed.
 
 Definition tokA : token := mkTok [87%N] [97%N] 1 1 2.
 Definition tokB : token := mkTok [87%N] [98%N] 2 1 2.
 
-(* extra trailing tokens in the formatted text are accepted *)
-Theorem sanity_sound_refuted_proof :
-  exists T o f, sanity_tokens T o f = ScOk /\ ~ fmt_equiv T o f.
-Proof.
-  exists toy_table, [tokA], [tokA; tokB]. split; [reflexivity|].
-  intros H. unfold fmt_equiv in H. simpl in H. inversion H; subst. inversion H5.
-Qed.
-
-(* a formatted text with fewer tokens makes the check raise instead of reporting *)
-Theorem sanity_raises_refuted_proof :
-  exists T o f, sanity_tokens T o f = ScIndexError.
-Proof. exists toy_table, [tokA; tokB], [tokA]. reflexivity. Qed.
-
-(* the same on texts, through the tokenizer: formatted "a\nb\n" vs original "a\n", and the converse *)
-Theorem sanity_text_refuted_proof :
-  sanity_check toy_table [97; 10; 98; 10]%N [97; 10]%N = SanRes ScOk /\
+(* on texts, through the tokenizer: formatted "a\nb\n" against original "a\n" and the converse are
+   both reported (before fix 7fc177c the first was accepted and the second raised IndexError) *)
+Theorem sanity_text_example_proof :
+  sanity_check toy_table [97; 10; 98; 10]%N [97; 10]%N = SanRes (ScCount 2 4) /\
   fmt_check toy_table [97; 10]%N [97; 10; 98; 10]%N = FvDiffer /\
-  sanity_check toy_table [97; 10]%N [97; 10; 98; 10]%N = SanRes ScIndexError.
+  sanity_check toy_table [97; 10]%N [97; 10; 98; 10]%N = SanRes (ScCount 4 2) /\
+  sanity_check toy_table [97; 32; 10; 10]%N [97; 10]%N = SanRes ScOk.
 Proof. repeat split; vm_compute; reflexivity. Qed.
 
 (* ---- collapse ---- *)
